@@ -126,7 +126,7 @@ def report(r, key, spec, conv=None, second_maxit=None, prior=0, tr=None, finding
 VERSIONS = ('Svanberg2007', 'Svanberg1987')
 BMODES = ('scalar', 'signal', 'variable', 'mixed')
 MMODES = ('scalar', 'signal', 'variable')
-BOXES = ((0.0, 1.0), (-50.0, 100.0), (0.001, 0.011))
+BOXES = ((0.0, 1.0), (-50.0, 100.0), (-0.3, 0.2))
 PROBLEMS = (('quad', ('lin', 'quad')), ('quadfull', ('quad', 'lin')), ('quad', ('recip', 'lin')), ('quad', ('lin',)))
 
 
@@ -139,7 +139,7 @@ def _container(bmode, mmode, layout, k):
 
 
 @bound('7-iteration runs: n in {1,2,3,5,9} [quick] + {16,30} [thorough] x all layouts (one array / scalars only / array+scalar+1-long array) x m in 1..3 x versions 1987/2007; '
-       'bound modes scalar/per-signal/per-variable/mixed, move modes scalar/per-signal/per-variable, arrays and python lists, boxes [0,1], [-50,100], [1e-3,1.1e-2], '
+       'bound modes scalar/per-signal/per-variable/mixed, move modes scalar/per-signal/per-variable, arrays and python lists, boxes [0,1], [-50,100], [-0.3,0.2] (ranges below 0.1: see small_range), '
        'start points with variables exactly on a bound; objective separable/non-separable quadratic, constraints linear/quadratic/reciprocal, some connected to a subset of the signals; '
        'every clause of the statement at every iteration (native/C10_lib.audit)')
 def iterations(r, tier, seed):
